@@ -1831,6 +1831,16 @@ class StateEngine(object):
             """
 
             """
+            The Map or Parallel branch this Task belongs to may have been
+            terminated while the Task was waiting for its (retry) delay to expire,
+            in which case the Task must not be started.
+            """
+            if self.branch_has_terminated(
+                state_type, context, id, ASL.get("TimeoutSeconds", self.execution_ttl)
+            ):
+                return
+
+            """
             It's important for the on_response function to be nested as we want
             the event, state and id to be wrapped in its closure, to be used when
             the service integrated to the Task *actually* returns its result.
